@@ -24,6 +24,17 @@ SCOPE_FILES = ["tx.py", "props.py", "sat.py", "io.py", "utils.py", "logic.py", "
 TRACKED_KINDS = {"Circuit", "BlackBox", "Graph"}
 
 
+_OWN = {}
+
+
+def _owners(repo, m):
+    from .c07 import class_callers, effective_owners
+
+    if id(repo) not in _OWN:
+        _OWN[id(repo)] = class_callers(repo)
+    return effective_owners(m, _OWN[id(repo)])
+
+
 def analysis(repo):
     an = Analyzer(repo)
     an.run()
@@ -62,7 +73,7 @@ def run(chk):
         key = (fi.file, fi.qual)
         s = an.summ[key]
         tr = tracked_params(an, key)
-        is_mutator = fi.cls == "Circuit" and fi.node.name in CIRCUIT_MUTATORS
+        is_mutator = fi.cls == "Circuit" and (fi.node.name in CIRCUIT_MUTATORS or (fi.node.name.startswith("_") and not fi.node.name.startswith("__") and _owners(repo, fi.node.name) <= CIRCUIT_MUTATORS))
         is_bb_init = fi.cls == "BlackBox" and fi.node.name == "__init__"
         n_funcs += 1
         if tr:
@@ -121,7 +132,13 @@ def run(chk):
 
     # derived mutator table == documented table
     doc = set(CIRCUIT_MUTATORS)
+    from .c07 import class_callers, effective_owners
+
+    callers = class_callers(repo)
     for m in sorted(derived_mutators | doc):
+        if m in derived_mutators and m not in doc and effective_owners(m, callers) <= doc and m.startswith("_"):
+            chk.ob("C19.mutator-table", f"circuit.py::Circuit.{m}", True, file="circuit.py", func=f"Circuit.{m}", fact={"private_helper_of": sorted(effective_owners(m, callers))}, nontrivial=False)
+            continue
         if m in derived_mutators and m not in doc:
             s = an.summ[("circuit.py", f"Circuit.{m}")]
             e = next((e for e in s.effects if e["param"] == "self" and e["part"] in VIOLATING_PARTS), None)
